@@ -345,11 +345,11 @@ func nestFamily(thorough bool) []nestCons {
 			return sb.String()
 		}},
 		{name: "closure-diamonds", gen: func(d int) string {
-			// f_i refers to f_(i-1) twice: 2^d paths from the last closure to the first
+			// f_i refers to f_(i-1) twice (a default value and a captured variable): 2^d paths from the last closure to the first
 			var sb strings.Builder
 			sb.WriteString("def outer():\n f0 = lambda: 0\n")
 			for i := 1; i <= d; i++ {
-				fmt.Fprintf(&sb, " f%d = lambda: (f%d, f%d)\n", i, i-1, i-1)
+				fmt.Fprintf(&sb, " f%d = lambda a=f%d: (a, f%d)\n", i, i-1, i-1)
 			}
 			fmt.Fprintf(&sb, " return f%d\ng = outer()\n", d)
 			return sb.String()
